@@ -153,6 +153,11 @@ def invariance_case(case):
             # the stage equations are solved to a tolerance, so two runs agree to the noise level of the nonlinear solver, far below the
             # tolerance itself (observed: 1e-13 in float64 via MINPACK, 2e-11 in longdouble via the built-in solver; a real dependence on t is >= 1e-2)
             thr = max(thr, 1e-2 * tol * max(1.0, float(np.abs(yb).max())))
+            if case["dtype"] != "float64":
+                # outside float64 the stage equations go through the built-in dogleg/Newton solver, which stops as soon as its tolerance is met
+                # (MINPACK, used for float64, overshoots it by orders of magnitude): two runs then agree to the nonlinear-solver tolerance, which is
+                # all C02 grants an implicit step ('to the nonlinear-solver tolerance for implicit ones'), amplified by the grown steps of F8
+                thr = max(thr, 100 * tol * max(1.0, float(np.abs(yb).max())))
         err = float(np.abs(yb - yo).max()) if same_len else float("inf")
     else:
         thr = 200 * tol * max(1.0, float(np.abs(yb).max()))
